@@ -12,6 +12,7 @@ RULE = ('complete grid of (window, stride) x every stream length 0..3(w+s)+2 at 
         'windows, their order, and the window-lifetime brackets at the head of the inner pipeline with the slicing '
         'model items[k*s:k*s+w]. Non-trivial = at least two windows; distinct = distinct case descriptor. '
         'states = distinct canonical snapshots of the real StoreManager at the end of a history.')
+DEEP_PROBES = ('roll(260,130), (257,256), (300,300), (257,64), (258,300); every stride 7..130 (..400 thorough); three alternating keys over the whole 6x6 grid; 4 100 live keys; 140 000 items (thorough)')
 ASSUMPTIONS = [
     'roll is value-oblivious, so one numbered history per (configuration, length, interleaving) is general',
     'window/stride beyond the grid, keys beyond 3 and per-key lengths beyond the bound are not covered',
